@@ -378,8 +378,8 @@ theorem C15_gen_counter_writers :
        ("simulator/file_system/file_system.py:FileSystem.setup_for_episode", "self.num_file_deletions = 0"),
        ("simulator/file_system/file_system.py:FileSystem.create_file", "self.num_file_creations += 1"),
        ("simulator/file_system/file_system.py:FileSystem.delete_file", "self.num_file_deletions += 1"),
-       ("simulator/file_system/file_system.py:FileSystem.move_file", "self.num_file_deletions += 1"),
        ("simulator/file_system/file_system.py:FileSystem.move_file", "self.num_file_creations += 1"),
+       ("simulator/file_system/file_system.py:FileSystem.move_file", "self.num_file_deletions += 1"),
        ("simulator/file_system/file_system.py:FileSystem.copy_file", "self.num_file_creations += 1"),
        ("simulator/file_system/file_system.py:FileSystem.pre_timestep", "self.num_file_creations = 0"),
        ("simulator/file_system/file_system.py:FileSystem.pre_timestep", "self.num_file_deletions = 0"),
